@@ -78,6 +78,14 @@ CHECKS = {
             "containers); medium-length random strings and strings up to 400 letters are validated by TraceMetrics.tla.",
             "Trusted: TLC, Strings.tla; long strings only through closed forms validated against the DP for n, m <= 5.",
             "TLA+ model checking (TLC) + spec-to-code replay + trace validation"),
+    "C09": ("DESIGN.md 4/C09",
+            "TcrMetric.tla (Validate, ExpandV, one ColumnCdist per column in scope with chain / loop weights selected from the column name, sum) "
+            "is model-checked over rows built from real V alleles (CDR1/CDR2 handed over as data; one allele without CDR2), small CDR3 sets, "
+            "all six classes and prime-valued weights (CdistIsWeightedSum, Decomposition, WeightTable, RejectIffNotTable, InputsUnchanged; "
+            "swapped chain weights rejected). Every terminal behaviour is executed on the real classes (default / permuted / duplicated / "
+            "string index, extra columns, the four invalid-input classes); random tables (cdist, pdist) are validated by TraceTcrMetric.tla.",
+            "Trusted: TLC, Strings.tla; the V-allele -> CDR1/CDR2 map is tidytcells data read independently by the harness.",
+            "TLA+ model checking (TLC) + spec-to-code replay + trace validation"),
     "C10": ("DESIGN.md 4/C10",
             "MakeOutput of NNSearch.tla models COO accumulation as a sum (invariant DenseExact); InputCheck.tla models the argument "
             "guard sequence (invariant RejectedIffInvalid, action property ErrorIsFinal). Every terminal behaviour of small NNSearch models "
